@@ -2,11 +2,74 @@ package main
 
 import (
 	"go/ast"
+	"go/token"
+	"go/types"
 	"strings"
 )
 
 func squeeze(s string) string {
 	return strings.Join(strings.Fields(s), "")
+}
+
+// inlineHelperCall: e is a call `f(a1, …, an)` of an unexported package-level function of this package
+// that is not a straight-line writer (its body has a statement other than an expression statement;
+// straight-line writers such as writeKeyPart keep their name in the recipe and have their body recorded
+// separately).  The call can be read as the helper's body with the parameters replaced by the
+// arguments when: f has no results and no `return`, is not variadic, never assigns a parameter, and
+// every argument is a pure expression or `&v`.  Returns the body and the substitution (for srcSubst).
+func (c *ctx) inlineHelperCall(e ast.Expr) ([]ast.Stmt, map[types.Object]string, bool) {
+	name, call, ok := funcCall(e)
+	if !ok || ast.IsExported(name) || call.Ellipsis.IsValid() {
+		return nil, nil, false
+	}
+	fn, ok := c.info.Uses[unparen(call.Fun).(*ast.Ident)].(*types.Func)
+	if !ok || fn.Pkg() != c.pkg || fn.Parent() != c.scope() {
+		return nil, nil, false
+	}
+	fd := c.funcDecl("", name)
+	if fd == nil || fd.Body == nil || fd.Type.Results != nil {
+		return nil, nil, false
+	}
+	ps := params(fd.Type)
+	if len(ps) != len(call.Args) || fn.Type().(*types.Signature).Variadic() {
+		return nil, nil, false
+	}
+	sub := map[types.Object]string{}
+	for i, p := range ps {
+		a := call.Args[i]
+		if u, isAddr := a.(*ast.UnaryExpr); isAddr && u.Op == token.AND {
+			a = u.X
+		}
+		if p == nil || c.info.Defs[p] == nil || !c.pureExpr(a) {
+			return nil, nil, false
+		}
+		sub[c.info.Defs[p]] = squeeze(c.src(call.Args[i]))
+	}
+	straight, bad := true, false
+	for _, st := range fd.Body.List {
+		if _, ok := st.(*ast.ExprStmt); !ok {
+			straight = false
+		}
+	}
+	ast.Inspect(fd.Body, func(n ast.Node) bool {
+		if _, ok := n.(*ast.ReturnStmt); ok {
+			bad = true
+		}
+		for _, t := range c.writeTargets(n) {
+			if id := rootIdent(t); id != nil {
+				if _, isParam := sub[c.obj(id)]; isParam {
+					if _, plain := unparen(t).(*ast.Ident); plain {
+						bad = true
+					}
+				}
+			}
+		}
+		return !bad
+	})
+	if straight || bad {
+		return nil, nil, false
+	}
+	return fd.Body.List, sub, true
 }
 
 // extraFacts: small source-text facts that parametrise the hand-written model (each is the
@@ -50,10 +113,22 @@ func (c *ctx) extraFacts() *leanFile {
 				labels = append(labels, squeeze(c.src(e)))
 			}
 			var writes []string
+		Body:
 			for _, st := range cc.Body {
 				es, ok := st.(*ast.ExprStmt)
 				if !ok {
 					break // the index path starts with `d := 1`
+				}
+				// a call of a helper that is not a straight-line writer stands for its body
+				if body, sub, ok := c.inlineHelperCall(es.X); ok {
+					for _, hs := range body {
+						hes, ok := hs.(*ast.ExprStmt)
+						if !ok {
+							break Body // … which here contains the start of the index path
+						}
+						writes = append(writes, squeeze(c.srcSubst(hes.X, sub)))
+					}
+					continue
 				}
 				writes = append(writes, squeeze(c.src(es.X)))
 			}
@@ -82,16 +157,18 @@ func (c *ctx) extraFacts() *leanFile {
 	}
 	l.p("/-- the float64 arm of asBool -/\ndef asBoolFloatSrc : String := %s\n\n", leanStr(asBoolFloat))
 
-	// substringFunc: the statements computing the bounds
+	// substringFunc: the statements computing the bounds; a local that only names a pure expression
+	// (`end := float64(len(m) + 1)`) is replaced by that expression
 	var sub []string
 	if fd := c.funcDecl("", "substringFunc"); fd != nil {
+		hoisted := c.hoistedLocals(fd)
 		ast.Inspect(fd.Body, func(n ast.Node) bool {
 			as, ok := n.(*ast.AssignStmt)
 			if !ok || len(as.Lhs) != 1 {
 				return true
 			}
 			if id, ok := as.Lhs[0].(*ast.Ident); ok && (id.Name == "first" || id.Name == "last") {
-				sub = append(sub, squeeze(c.src(as)))
+				sub = append(sub, squeeze(c.srcSubst(as, hoisted)))
 			}
 			return true
 		})
